@@ -262,15 +262,49 @@ struct Verdict {
     std::set<std::string> tags;
 };
 
+// ---- abrupt end of a case from any thread (controlled scheduler: deadlock, decision bound) ----
+inline int &child_fd() {
+    static int fd = -1;
+    return fd;
+}
+inline Ctx *&cur_ctx() {
+    static Ctx *c = nullptr;
+    return c;
+}
+inline std::string verdict_text(bool ok, bool nontrivial, const std::set<std::string> &tags, const std::string &msg) {
+    std::ostringstream o;
+    o << (ok ? "OK" : "FAIL") << '\n' << (nontrivial ? 1 : 0) << '\n';
+    for (auto &t : tags) o << "T " << t << '\n';
+    o << "M " << msg << '\n';
+    return o.str();
+}
+// Ends the current case immediately.  In a forked child the verdict goes to the parent; otherwise
+// (in-process replay) it is printed and the process exits with the verdict as status.
+[[noreturn]] inline void exit_case_now(bool ok, const std::string &msg, const char *extra_tag = nullptr) {
+    std::set<std::string> tags;
+    if (cur_ctx()) tags = cur_ctx()->tags;
+    if (extra_tag) tags.insert(extra_tag);
+    if (child_fd() >= 0) {
+        std::string s = verdict_text(ok, false, tags, msg);
+        (void)!write(child_fd(), s.data(), s.size());
+        _exit(0);
+    }
+    printf("REPLAY (in-process) %s: %s\n", ok ? "PASS" : "FAIL", msg.c_str());
+    fflush(nullptr);
+    _exit(ok ? 0 : 1);
+}
+
 inline Verdict run_inproc(const Spec &sp, const Case &c, bool replay) {
     Ctx ctx;
     ctx.replay = replay;
+    cur_ctx() = &ctx;
     Verdict v;
     try {
         sp.run(c, ctx);
     } catch (const Failure &f) {
         ctx.note_fail(f.msg);
     }
+    cur_ctx() = nullptr;
     v.ok = !ctx.failed;
     v.msg = ctx.msg;
     v.nontrivial = ctx.nontrivial;
@@ -293,12 +327,9 @@ inline Verdict run_forked(const Spec &sp, const Case &c, bool replay, const std:
             }
         }
         alarm(120);
+        child_fd() = fd[1];
         Verdict v = run_inproc(sp, c, replay);
-        std::ostringstream o;
-        o << (v.ok ? "OK" : "FAIL") << '\n' << (v.nontrivial ? 1 : 0) << '\n';
-        for (auto &t : v.tags) o << "T " << t << '\n';
-        o << "M " << v.msg << '\n';
-        std::string s = o.str();
+        std::string s = verdict_text(v.ok, v.nontrivial, v.tags, v.msg);
         (void)!write(fd[1], s.data(), s.size());
         _exit(0);
     }
